@@ -21,9 +21,10 @@ EXTENDS Ledger, Json
 
 CONSTANTS TraceFile, Strict
 
-VARIABLES pos, obs, trxu
+VARIABLES pos, obs, trxu,
+          prev    \* the books as they were before the last truncation step (for queries that raced with it)
 
-tvars == <<book, vtx, inflight, pos, obs, trxu>>
+tvars == <<book, vtx, inflight, pos, obs, trxu, prev>>
 
 TLog == ndJsonDeserialize(TraceFile)
 
@@ -49,6 +50,7 @@ TInit ==
     /\ pos = 1
     /\ obs = GoodObs
     /\ trxu = {}
+    /\ prev = [n \in Node |-> EmptyBook({"g"})]
 
 ----------------------------------------------------------------------------
 (* reading the log *)
@@ -212,6 +214,14 @@ EvBalance(ev) ==
     IN /\ obs' = [GoodObs EXCEPT !.a = ev.a, !.conf = IsStrict(ev.a) => conf]
        /\ UNCHANGED <<book, vtx, inflight, trxu>>
 
+\* a balance query that overlapped a truncation takes effect before it or after it
+EvBalanceRaced(ev) ==
+    LET n == ev.n
+        outs == BalanceOutcomes(book[n], ev.wl) \cup BalanceOutcomes(prev[n], ev.wl)
+        conf == \E o \in outs : o.res = ev.res /\ (o.res = "ok" => o.val = ev.val)
+    IN /\ obs' = [GoodObs EXCEPT !.a = ev.a, !.conf = IsStrict("Balance") => conf]
+       /\ UNCHANGED <<book, vtx, inflight, trxu>>
+
 EvReadTrx(ev) ==
     LET n == ev.n
         o == ReadTrxOutcome(book[n], ev.t)
@@ -257,6 +267,7 @@ EvWedged(ev) ==
 TNext ==
     /\ pos <= Len(TLog)
     /\ pos' = pos + 1
+    /\ prev' = IF TLog[pos].a = "Truncate" THEN book ELSE prev
     /\ LET ev == TLog[pos] IN
        CASE ev.a = "Reset"         -> EvReset(ev)
          [] ev.a = "Genesis"       -> EvGenesis(ev)
@@ -269,6 +280,7 @@ TNext ==
          [] ev.a = "Truncate"      -> EvTruncate(ev)
          [] ev.a \in {"Trust", "Untrust"} -> EvTrust(ev)
          [] ev.a = "Balance"       -> EvBalance(ev)
+         [] ev.a = "BalanceRaced"  -> EvBalanceRaced(ev)
          [] ev.a = "ReadTrx"       -> EvReadTrx(ev)
          [] ev.a = "ReadVertex"    -> EvReadVertex(ev)
          [] ev.a = "Load"          -> EvLoad(ev)
@@ -293,5 +305,5 @@ ReadsOK == obs.read
 \* acceptance: the whole log was consumed
 Accepted == TLCGet("stats").diameter - 1 = Len(TLog) \/ TLCGet("stats").diameter = Len(TLog) + 1
 
-TView == <<book, vtx, inflight, pos, obs, trxu>>
+TView == <<book, vtx, inflight, pos, obs, trxu, prev>>
 =============================================================================
